@@ -485,7 +485,10 @@ def run_property(prop, tier, obligations, meta, seed=0, only=None, jobs=None, ke
             exit_code = 1
         elif inconclusive:
             exit_code = 2
-        write_evidence(prop, tier, seed, sel, results, overlay_infos, meta, time.time() - t_start, len(violations))
+        # partial runs (--only) and runs against another tree (VERIF_REPO: seeded-change experiments) must not
+        # overwrite the evidence of the registered check
+        partial = bool(only) or bool(os.environ.get('VERIF_REPO'))
+        write_evidence(prop, tier, seed, sel, results, overlay_infos, meta, time.time() - t_start, len(violations), partial)
         if exit_code == 0:
             log('%s: held on everything explored (%d obligations, tier %s, %.0fs)' % (prop, len(sel), tier, time.time() - t_start))
     finally:
@@ -548,8 +551,9 @@ def replay_path(path):
 # ---------------------------------------------------------------------------------------------
 # evidence
 # ---------------------------------------------------------------------------------------------
-def write_evidence(prop, tier, seed, sel, results, overlay_infos, meta, wall, nviol):
-    os.makedirs(os.path.join(VERIF, 'evidence'), exist_ok=True)
+def write_evidence(prop, tier, seed, sel, results, overlay_infos, meta, wall, nviol, partial=False):
+    evdir = os.path.join(CACHE, 'evidence_partial') if partial else os.path.join(VERIF, 'evidence')
+    os.makedirs(evdir, exist_ok=True)
     samples, nontrivial, queries, solver = [], 0, 0, 0.0
     funcs = set()
     for ob in sel:
@@ -593,4 +597,4 @@ def write_evidence(prop, tier, seed, sel, results, overlay_infos, meta, wall, nv
         'wall_s': round(wall, 1),
         'violations': nviol,
     }
-    json.dump(ev, open(os.path.join(VERIF, 'evidence', prop + '.json'), 'w'), indent=1)
+    json.dump(ev, open(os.path.join(evdir, prop + '.json'), 'w'), indent=1)
